@@ -54,7 +54,7 @@ def manifest(with_c15):
     return {
      "version": 1,
      "setup_cmd": "./setup.sh",
-     "hooks": {"guard": "verif", "enable": "go build -tags verif (the harness module replaces github.com/theQRL/go-qrllib by /repo)",
+     "hooks": {"guard": "verif", "enable": "go build -tags 'verif verifauth verifwots' (the harness module replaces github.com/theQRL/go-qrllib by /repo; verifauth and verifwots are optional deep hooks that ./check leaves out if they do not build against the tree)",
                "baseline_off_cmd": "cd /repo && GOFLAGS=-mod=mod go test -json -vet=off -count=1 -timeout 25m ./...",
                "source_commits": hook_shas, "add_only": True},
      "engines": [
